@@ -80,8 +80,19 @@ def correspondence(chk, drv):
     nontriv = set()
     hits = [pbc.HitResult(None, synth_rows(pbc, rng), True) for _ in range(n)]
     hits += real_hits(pbc, rng, 6 if chk.tier == 'quick' else 150)
+    by_dim = {}
+    for u in U:
+        by_dim.setdefault(type(u(1.0)).__name__, []).append(u)
     for hit in hits:
         rows = hit.trajectory
+        # all arguments below carry explicit units: the preferred units in force (drop, distance, target height, angle) are not an input
+        if rng.random() < 0.5:
+            pbc.PreferredUnits.drop = rng.choice(by_dim['Distance'])
+            pbc.PreferredUnits.distance = rng.choice(by_dim['Distance'])
+            pbc.PreferredUnits.target_height = rng.choice(by_dim['Distance'])
+            pbc.PreferredUnits.angular = rng.choice(by_dim['Angular'])
+        else:
+            pbc.PreferredUnits.defaults()
         for _ in range(4):
             at = U.Foot(rng.choice([rows[rng.randrange(len(rows))].distance >> U.Foot, rng.uniform(0, (rows[-1].distance >> U.Foot) * 1.2), 0.0]))
             h = rng.choice([U.Inch(rng.choice([0.0, 2.0, 10.0, rng.uniform(0, 200)])), U.Centimeter(rng.uniform(1, 100))])
@@ -103,6 +114,7 @@ def correspondence(chk, drv):
             c.add(line, ans)
             if ans.startswith('ok') and 0 < int(ans.split()[1]) < len(rows) - 1:
                 nontriv.add(line)
+    pbc.PreferredUnits.defaults()
     r = c.finish(drv)
     chk.corr.append(r)
     chk.oblige('corr:danger', 'correspondence', r['mismatch'] == 0, f"{r['cases']} cases, {r['bit_identical']} identical, {r['mismatch']} mismatches")
